@@ -7,7 +7,7 @@
   the code changes (modes_map, masks, replace chain, bases, indices, the ' (deleted)' rule,
   the caught errnos, the io separator / key order / field names, the placement of int(value)).
 -/
-import PsutilModel.Proofs.C14
+import PsutilModel.Proofs.C14Io
 import PsutilModel.Model.C14Gen
 namespace Psutil.C14
 open Spec
@@ -341,10 +341,10 @@ theorem C14_zombie_no_descriptors (fs : FS) :
 theorem C14_zombie_errors (fs : FS) (e : GoneErr) :
     openFiles cfg fs { fdDir := .err (.gone e), alive := true, zombie := true } = .exc .zombieProcess ∧
     numFds cfg { fdDir := .err (.gone e), alive := true, zombie := true } = .exc .zombieProcess ∧
-    ioCounters cfg true (.err (.gone e)) true = .exc .zombieProcess := by
+    Pio.ioCounters cfg true (.err (.gone e)) true = .exc .zombieProcess := by
   have ha := cfg_good_access
   cases e <;>
-    simp [openFiles, openFilesBody, numFds, ioCounters, ioCountersBody, fileExc, goneExc, wrap, wrapExc,
+    simp [openFiles, openFilesBody, numFds, Pio.ioCounters, Pio.ioCountersBody, fileExc, goneExc, wrap, wrapExc,
       ha.wrapZombieFirst]
 
 /-- **a refused descriptor directory / io file is AccessDenied(pid)** whatever the state of the
@@ -352,9 +352,9 @@ theorem C14_zombie_errors (fs : FS) (e : GoneErr) :
 theorem C14_dir_denied (fs : FS) (alive zombie : Bool) :
     openFiles cfg fs { fdDir := .err .denied, alive := alive, zombie := zombie } = .exc .accessDenied ∧
     numFds cfg { fdDir := .err .denied, alive := alive, zombie := zombie } = .exc .accessDenied ∧
-    ioCounters cfg alive (.err .denied) zombie = .exc .accessDenied := by
+    Pio.ioCounters cfg alive (.err .denied) zombie = .exc .accessDenied := by
   have ha := cfg_good_access
-  simp [openFiles, openFilesBody, numFds, ioCounters, ioCountersBody, fileExc, wrap, wrapExc, ha.wrapPermAD]
+  simp [openFiles, openFilesBody, numFds, Pio.ioCounters, Pio.ioCountersBody, fileExc, wrap, wrapExc, ha.wrapPermAD]
 
 /-- **error contract of the three methods**, all states at once: whenever the specification
     names the exception for a directory / file that cannot be opened (refused → AccessDenied; gone
@@ -363,7 +363,7 @@ theorem C14_error_contract (fs : FS) (alive zombie : Bool) (e : FileErr) (x : Ex
     (h : expectedOnError alive zombie e = some x) :
     openFiles cfg fs { fdDir := .err e, alive := alive, zombie := zombie } = .exc x ∧
     numFds cfg { fdDir := .err e, alive := alive, zombie := zombie } = .exc x ∧
-    ioCounters cfg alive (.err e) zombie = .exc x := by
+    Pio.ioCounters cfg alive (.err e) zombie = .exc x := by
   have ha := cfg_good_access
   cases e with
   | denied =>
@@ -372,7 +372,7 @@ theorem C14_error_contract (fs : FS) (alive zombie : Bool) (e : FileErr) (x : Ex
     exact C14_dir_denied fs alive zombie
   | gone g =>
     cases alive <;> cases zombie <;> cases g <;> simp [expectedOnError] at h <;> subst h <;>
-      simp [openFiles, openFilesBody, numFds, ioCounters, ioCountersBody, fileExc, goneExc, wrap, wrapExc,
+      simp [openFiles, openFilesBody, numFds, Pio.ioCounters, Pio.ioCountersBody, fileExc, goneExc, wrap, wrapExc,
         ha.wrapZombieFirst]
 
 /-- a zombie is a process like any other for `open_files()`/`num_fds()`: the `zombie` flag of
@@ -455,12 +455,12 @@ theorem C14_io_field_names :
     RuntimeError for a file without any counter line, ValueError when one of the six is
     missing. -/
 theorem C14_io_exact (its : List Item) (h : ∀ it ∈ its, WFItem it) (hd : DistinctKeys its) :
-    ioCounters cfg true (.ok (renderItems its)) = expectedIo its :=
+    Pio.ioCounters cfg true (.ok (renderItems its)) = expectedIo its :=
   ioCounters_items cfg cfg_good_io cfg_io_guarded its h hd
 
 /-- **round trip** of the kernel's own rendering, for all counter values -/
 theorem C14_io_roundtrip (a : IoAcct) :
-    ioCounters cfg true (.ok (renderIo a)) = .ok (expectedIoAcct a) := by
+    Pio.ioCounters cfg true (.ok (renderIo a)) = .ok (expectedIoAcct a) := by
   unfold renderIo
   rw [C14_io_exact (acctItems a)]
   · rfl
@@ -476,8 +476,8 @@ theorem C14_io_roundtrip (a : IoAcct) :
     those lines removed. -/
 theorem C14_io_tolerates_blank_and_malformed (its : List Item) (h : ∀ it ∈ its, WFItem it)
     (hd : DistinctKeys its) :
-    ioCounters cfg true (.ok (renderItems its))
-      = ioCounters cfg true (.ok (renderItems (its.filter Item.isKv))) := by
+    Pio.ioCounters cfg true (.ok (renderItems its))
+      = Pio.ioCounters cfg true (.ok (renderItems (its.filter Item.isKv))) := by
   have hf : kvs (its.filter Item.isKv) = kvs its := kvs_filter its
   rw [C14_io_exact its h hd, C14_io_exact _ (fun it hi => h it (List.mem_filter.mp hi).1)
     (by unfold DistinctKeys; rw [hf]; exact hd)]
@@ -486,7 +486,7 @@ theorem C14_io_tolerates_blank_and_malformed (its : List Item) (h : ∀ it ∈ i
 
 /-- an entirely empty file (or one holding only blank / junk lines) is reported as RuntimeError -/
 theorem C14_io_empty_file (its : List Item) (h : ∀ it ∈ its, WFItem it) (hk : kvs its = []) :
-    ioCounters cfg true (.ok (renderItems its)) = .exc .runtimeError := by
+    Pio.ioCounters cfg true (.ok (renderItems its)) = .exc .runtimeError := by
   rw [C14_io_exact its h (by unfold DistinctKeys; rw [hk]; exact List.nodup_nil)]
   simp [expectedIo, hk]
 
@@ -498,25 +498,213 @@ def ioBadValue : Bytes :=
 
 /-- with `int(value)` outside the try (pre-fix), one non-numeric extra line fails the call … -/
 theorem C14_io_bad_value_fails_upstream :
-    ioCounters cfgUpstream true (.ok ioBadValue) = .exc .valueError := by decide
+    Pio.ioCounters cfgUpstream true (.ok ioBadValue) = .exc .valueError := by decide
 
 /-- … with the current code it is skipped -/
-theorem C14_io_bad_value_tolerated : ioCounters cfg true (.ok ioBadValue) = .ok [3, 4, 5, 6, 1, 2] := by
+theorem C14_io_bad_value_tolerated : Pio.ioCounters cfg true (.ok ioBadValue) = .ok [3, 4, 5, 6, 1, 2] := by
   decide
 
 /-- a missing `/proc/<pid>/io` of a process that is gone is NoSuchProcess -/
-theorem C14_io_gone (e : GoneErr) : ioCounters cfg false (.err (.gone e)) = .exc .noSuchProcess := by
+theorem C14_io_gone (e : GoneErr) : Pio.ioCounters cfg false (.err (.gone e)) = .exc .noSuchProcess := by
   have ha := cfg_good_access
-  cases e <;> simp [ioCounters, ioCountersBody, fileExc, goneExc, wrap, wrapExc]
+  cases e <;> simp [Pio.ioCounters, Pio.ioCountersBody, fileExc, goneExc, wrap, wrapExc]
 
 /-- a zombie's `/proc/pid/io` is still served by the kernel (to root): the six counters come
     back exactly as for a running process -/
 theorem C14_io_zombie_roundtrip (a : IoAcct) :
-    ioCounters cfg true (.ok (renderIo a)) true = .ok (expectedIoAcct a) := by
+    Pio.ioCounters cfg true (.ok (renderIo a)) true = .ok (expectedIoAcct a) := by
   have h := C14_io_roundtrip a
-  unfold ioCounters at h ⊢
-  cases hb : ioCountersBody cfg (.ok (renderIo a)) with
+  unfold Pio.ioCounters at h ⊢
+  cases hb : Pio.ioCountersBody cfg (.ok (renderIo a)) with
   | ok v => rw [hb] at h; simpa [wrap] using h
   | exc e => rw [hb] at h; simp [wrap] at h
+
+/-! ## io_counters on EVERY file content (extension round 2) -/
+
+/-- **io_counters is exact on every content of `/proc/<pid>/io`** — any bytes at all: lines are
+    separated by `\n`; a line that, blanks removed, is `NAME ": " NUMBER` with exactly one separator
+    and a NUMBER Python's `int()` reads (sign and single `_` between digits included) is a counter
+    line; EVERY other line (blank, no separator, two or more separators, a value that is not a
+    number, …) is ignored; the six documented names are reported, the last line of a name counting;
+    RuntimeError when there is no counter line at all, ValueError when one of the six is missing.
+    Holds in every process state (the file could be read). -/
+theorem C14_io_any_content (content : Bytes) (alive zombie : Bool) :
+    Pio.ioCounters cfg alive (.ok content) zombie = expectedIoContent content :=
+  pio_ioCounters_content cfg cfg_good_io cfg_io_guarded alive zombie content
+
+/-- **tolerating blank or malformed extra lines, at full strength**: in ANY file (lines `a`, then
+    `b`), inserting ANY line `x` that is not a counter line — wherever, whatever bytes — does not
+    change the answer -/
+theorem C14_io_extra_line_tolerated (a b : List Bytes) (x : Bytes) (ha : ∀ l ∈ a, 10 ∉ l)
+    (hb : ∀ l ∈ b, 10 ∉ l) (hx : 10 ∉ x) (hm : counterOf x = none) :
+    Pio.ioCounters cfg true (.ok (fileOf (a ++ x :: b))) = Pio.ioCounters cfg true (.ok (fileOf (a ++ b))) := by
+  rw [C14_io_any_content, C14_io_any_content]
+  unfold expectedIoContent
+  have h1 : ∀ l ∈ a ++ x :: b, 10 ∉ l := by
+    intro l hl
+    rcases List.mem_append.mp hl with h | h
+    · exact ha l h
+    · rcases List.mem_cons.mp h with h | h
+      · subst h; exact hx
+      · exact hb l h
+  have h2 : ∀ l ∈ a ++ b, 10 ∉ l := by
+    intro l hl
+    rcases List.mem_append.mp hl with h | h
+    · exact ha l h
+    · exact hb l h
+  rw [contentKvs_fileOf _ h1, contentKvs_fileOf _ h2]
+  simp [List.filterMap_append, List.filterMap_cons, hm]
+
+/-- **counters beyond the six are ignored** (`cancelled_write_bytes`, anything a later kernel adds):
+    a counter line whose name is not one of the six documented ones does not change the answer of a
+    file that has some other counter line -/
+theorem C14_io_unknown_counter_ignored (a b : List Bytes) (x : Bytes) (n : Bytes) (v : Int)
+    (ha : ∀ l ∈ a, 10 ∉ l) (hb : ∀ l ∈ b, 10 ∉ l) (hx : 10 ∉ x) (hm : counterOf x = some (n, v))
+    (hn : n ∉ documentedKeys) (hne : (a ++ b).filterMap counterOf ≠ []) :
+    Pio.ioCounters cfg true (.ok (fileOf (a ++ x :: b))) = Pio.ioCounters cfg true (.ok (fileOf (a ++ b))) := by
+  rw [C14_io_any_content, C14_io_any_content]
+  unfold expectedIoContent
+  have h1 : ∀ l ∈ a ++ x :: b, 10 ∉ l := by
+    intro l hl
+    rcases List.mem_append.mp hl with h | h
+    · exact ha l h
+    · rcases List.mem_cons.mp h with h | h
+      · subst h; exact hx
+      · exact hb l h
+  have h2 : ∀ l ∈ a ++ b, 10 ∉ l := by
+    intro l hl
+    rcases List.mem_append.mp hl with h | h
+    · exact ha l h
+    · exact hb l h
+  rw [contentKvs_fileOf _ h1, contentKvs_fileOf _ h2]
+  simp only [List.filterMap_append, List.filterMap_cons, hm]
+  rw [pickLast_insert_other documentedKeys _ _ n v hn]
+  have e1 : (List.filterMap counterOf a ++ (n, v) :: List.filterMap counterOf b).isEmpty = false := by
+    cases List.filterMap counterOf a <;> rfl
+  have e2 : (List.filterMap counterOf a ++ List.filterMap counterOf b).isEmpty = false := by
+    rw [← List.filterMap_append]
+    cases h : List.filterMap counterOf (a ++ b) with
+    | nil => exact absurd h hne
+    | cons _ _ => rfl
+  rw [e1, e2]
+
+/-- the kernel's file for (rchar 1, wchar 2, syscr 3, syscw 4, read_bytes 5, write_bytes 6,
+    cancelled_write_bytes 7) as a list of lines -/
+def ioKernelLines : List Bytes :=
+  [[114, 99, 104, 97, 114, 58, 32, 49],
+   [119, 99, 104, 97, 114, 58, 32, 50],
+   [115, 121, 115, 99, 114, 58, 32, 51],
+   [115, 121, 115, 99, 119, 58, 32, 52],
+   [114, 101, 97, 100, 95, 98, 121, 116, 101, 115, 58, 32, 53],
+   [119, 114, 105, 116, 101, 95, 98, 121, 116, 101, 115, 58, 32, 54],
+   [99, 97, 110, 99, 101, 108, 108, 101, 100, 95, 119, 114, 105, 116, 101, 95, 98, 121, 116, 101, 115, 58, 32, 55]]
+
+example : ioKernelLines = (acctItems ⟨1, 2, 3, 4, 5, 6, 7⟩).map Item.text := by
+  simp only [acctItems, List.map, Item.text, ioKernelLines]
+  have h : ∀ n : Nat, n < 10 → renderDec n = [48 + n] := by
+    intro n hn
+    unfold renderDec renderRadix renderRadixAux
+    simp [hn, decimal]
+  rw [h 1 (by decide), h 2 (by decide), h 3 (by decide), h 4 (by decide), h 5 (by decide), h 6 (by decide),
+    h 7 (by decide)]
+  rfl
+
+/-- **duplicate key: the last line counts** — the kernel's file followed by a second `syscr: 9` -/
+theorem C14_io_duplicate_last_wins :
+    Pio.ioCounters cfg true (.ok (fileOf (ioKernelLines ++ [([115, 121, 115, 99, 114, 58, 32, 57] : Bytes)]))) = .ok [9, 4, 5, 6, 1, 2] ∧
+    Pio.ioCounters cfg true (.ok (fileOf (([115, 121, 115, 99, 114, 58, 32, 57] : Bytes) :: ioKernelLines))) = .ok [3, 4, 5, 6, 1, 2] := by
+  rw [C14_io_any_content, C14_io_any_content]
+  constructor <;> decide
+
+/-- **a key with a blank before the colon is ANOTHER name**: `syscr : 9` next to the kernel's lines is
+    an extra line (ignored); a file whose only `syscr` line is spelt that way lacks the counter
+    (ValueError) -/
+theorem C14_io_key_trailing_blank :
+    Pio.ioCounters cfg true (.ok (fileOf (ioKernelLines ++ [([115, 121, 115, 99, 114, 32, 58, 32, 57] : Bytes)]))) = .ok [3, 4, 5, 6, 1, 2] ∧
+    Pio.ioCounters cfg true (.ok (fileOf (([115, 121, 115, 99, 114, 32, 58, 32, 57] : Bytes) :: ioKernelLines.eraseIdx 2))) = .exc .valueError := by
+  rw [C14_io_any_content, C14_io_any_content]
+  constructor <;> decide
+
+/-- **values with a sign or `_`** are numbers for `int()`: `+9` is 9, `-9` is reported as −9 (the
+    kernel prints `%llu`, never a sign: characterisation of the code, nothing the statement forbids),
+    `1_0` is 10; `+ 9`, `9_`, `--9` are not numbers: those lines are ignored -/
+theorem C14_io_signed_values :
+    Pio.ioCounters cfg true (.ok (fileOf (ioKernelLines ++ [([115, 121, 115, 99, 114, 58, 32, 43, 57] : Bytes), ([115, 121, 115, 99, 119, 58, 32, 45, 57] : Bytes), ([114, 99, 104, 97, 114, 58, 32, 49, 95, 48] : Bytes)])))
+      = .ok [9, -9, 5, 6, 10, 2] ∧
+    Pio.ioCounters cfg true (.ok (fileOf (ioKernelLines ++ [([115, 121, 115, 99, 114, 58, 32, 43, 32, 57] : Bytes), ([115, 121, 115, 99, 119, 58, 32, 57, 95] : Bytes), ([114, 99, 104, 97, 114, 58, 32, 45, 45, 57] : Bytes)])))
+      = .ok [3, 4, 5, 6, 1, 2] := by
+  rw [C14_io_any_content, C14_io_any_content]
+  constructor <;> decide
+
+/-- the round-1 class of files is an instance: on a well-formed item list with distinct names the
+    two specifications agree -/
+theorem C14_io_specs_agree (its : List Item) (h : ∀ it ∈ its, WFItem it) (hd : DistinctKeys its) :
+    expectedIoContent (renderItems its) = expectedIo its := by
+  rw [← C14_io_any_content (renderItems its) true false, C14_io_exact its h hd]
+
+/-! ## num_fds() against open_files() (extension round 2) -/
+
+/-- a descriptor is NOT listed exactly when it is not a still-open descriptor of a regular file:
+    another kind (socket, pipe, anon inode, device / directory / FIFO, relative target), a path
+    where no regular file is, or a descriptor that closes during the scan -/
+theorem C14_unlisted_iff (fs : FS) (d : Fd) :
+    listed fs d = none ↔
+      ¬ ∃ path del, d.kind = .regular path del ∧ d.closesAt = none ∧ fs.isFile path = true := by
+  constructor
+  · rintro h ⟨path, del, hk, hc, hf⟩
+    simp [listed, hk, hc, hf] at h
+  · intro h
+    cases hl : listed fs d with
+    | none => rfl
+    | some f =>
+      obtain ⟨path, del, h1, h2, h3, _⟩ := C14_only_regular_listed fs d f hl
+      exact absurd ⟨path, del, h1, h2, h3⟩ h
+
+/-- **num_fds() and open_files() are consistent** on a live, inspectable process: both succeed;
+    every entry of `open_files()` carries the number of a descriptor that `num_fds()` counted (and
+    is that descriptor's report); and `num_fds()` exceeds the length of `open_files()` by exactly
+    the number of unlisted descriptors (`C14_unlisted_iff`: other kinds, relative targets, paths
+    without a regular file, descriptors closing during the scan) -/
+theorem C14_num_fds_vs_open_files (w : World) (hl : Live w) (hi : Inspectable w)
+    (hwf : ∀ d ∈ w.fds, WFFd w.fs d) :
+    ∃ l n, openFiles cfg w.fs (renderWorld w) = .ok l ∧ numFds cfg (renderWorld w) = .ok n ∧
+      (∀ f ∈ l, ∃ d ∈ w.fds, d.n = f.fd ∧ listed w.fs d = some f) ∧
+      l.length + (w.fds.filter fun d => (listed w.fs d).isNone).length = n := by
+  have hdd : w.dirDenied = false := by
+    unfold Inspectable World.denied at hi
+    simp only [Bool.or_eq_false_iff] at hi
+    exact hi.1
+  refine ⟨w.fds.filterMap (listed w.fs), w.fds.length, ?_, ?_, ?_, length_filterMap_add _ _⟩
+  · rw [C14_open_files_exact w hwf]
+    unfold Inspectable at hi
+    simp [expectedOpenFiles, World.vanished, hl.1, hl.2, hi]
+  · rw [C14_num_fds]
+    simp [expectedNumFds, hl.1, hdd]
+  · intro f hf
+    obtain ⟨d, hd, hdf⟩ := List.mem_filterMap.mp hf
+    obtain ⟨path, del, _, _, _, e⟩ := C14_only_regular_listed w.fs d f hdf
+    exact ⟨d, hd, by rw [e], hdf⟩
+
+/-- in EVERY world (closing, refused, dying, zombie …): whenever both calls answer, `open_files()`
+    is never longer than `num_fds()` -/
+theorem C14_open_files_le_num_fds (w : World) (hwf : ∀ d ∈ w.fds, WFFd w.fs d)
+    (l : List POpenFile) (n : Nat) (h1 : openFiles cfg w.fs (renderWorld w) = .ok l)
+    (h2 : numFds cfg (renderWorld w) = .ok n) : l.length ≤ n := by
+  rw [C14_open_files_exact w hwf] at h1
+  rw [C14_num_fds] at h2
+  unfold expectedOpenFiles at h1
+  unfold expectedNumFds at h2
+  split at h1
+  · cases h1
+  · split at h1
+    · cases h1
+    · split at h1
+      · cases h1
+      · split at h2
+        · cases h2
+        · split at h2
+          · cases h2
+          · cases h1; cases h2
+            exact List.length_filterMap_le _ _
 
 end Psutil.C14
